@@ -748,3 +748,38 @@ def _only_via_none(b, cbb, ret_bb, stops):
                     reach = b.reach_from(some_succ[0], unwind=False, avoid=stops)
                     return ret_bb not in reach
     return False
+
+
+def rule_fast_window(fx, col):
+    """USERCALL-STATE (a), fast path: between the fast-debt publish and the point where the debt is
+    owned by a protection or paid back, nothing but the confirming load and branch plumbing runs."""
+    from . import totality as T
+    cx = O.ctx(fx)
+    quiet = T.quiet_functions(fx)
+    n = 0
+    for b in fx.lib.bodies:
+        pubs = [(bb, t, cb) for bb, t, cb in cx.local_calls(b) if cx.publishes_fast_debt(cb.key) and not b.is_cleanup(bb)
+                and 'debt::Debt' in b.local_ty(t['dest']['local'])]
+        if not pubs or not any(s.cls == 'cell' for s in cx.summ.sites_by_body.get(b.key, ())):
+            continue
+        n += 1
+        pbb, pt, _ = pubs[0]
+        closers = set()
+        for bb, t in b.calls(include_cleanup=False):
+            if _is_pay(t) and pbb in _call_bbs(b, t['args'][0], through=_try_through):
+                closers.add(bb)
+        for (nbb, pop, st, dop) in _prot_constructions(b):
+            if st == 'Some' and dop is not None and pbb in _call_bbs(b, dop, through=_try_through):
+                closers.add(nbb)
+        region = b.reach_from(b.term(pbb)['target'], unwind=False, avoid=closers)
+        bad = []
+        for x in sorted(region):
+            t = b.term(x)
+            if t['k'] == 'call' and U.callee_name(t) in ('branch', 'from_residual'):
+                continue
+            w = T._quiet_term(fx, quiet, b, x)
+            if w:
+                bad.append(w)
+        col.add('FAST-WINDOW', '%s|quiet between publish and ownership' % b.fname, not bad,
+                '; '.join(bad) or 'from the debt publish (%s) until the debt is owned by a protection or paid back only atomics, casts and branches run (%d blocks)' % (b.loc(pbb), len(region)), b.loc(pbb))
+    col.floor('FAST-WINDOW', 'fast-path windows', n, 1)
